@@ -80,6 +80,26 @@ pub fn worker_handle(line: &str) -> String {
                 }
             }
         }
+        #[cfg(feature = "ext")]
+        "u" => {
+            apply_env(&parse_env_field(parts[2]));
+            let mut warns: Vec<char> = Vec::new();
+            let mut reporter = |k: MarkerWarningKind, _m: String| warns.push(warn_code(k));
+            match pep508_rs::UnnamedRequirement::<VerbatimUrl>::parse(&text, "/work", &mut reporter) {
+                Ok(u) => {
+                    let extras: Vec<String> = u.extras.iter().map(|e| hex(e.as_ref())).collect();
+                    let w: String = if warns.is_empty() { "-".into() } else { warns.iter().collect() };
+                    format!("ok given={} url={} extras={} marker={} w={}", hex(u.url.given().unwrap_or("")), hex(&u.url.to_string()), if extras.is_empty() { "-".to_string() } else { extras.join(";") }, dump(&u.marker), w)
+                }
+                Err(e) => {
+                    let rendered = std::panic::catch_unwind(std::panic::AssertUnwindSafe(|| e.to_string())).ok();
+                    let disp = rendered.is_some();
+                    let boundary = e.start <= text.len() && text.is_char_boundary(e.start);
+                    let kind = match e.message { pep508_rs::Pep508ErrorSource::String(_) => "string", pep508_rs::Pep508ErrorSource::UrlError(_) => "url", pep508_rs::Pep508ErrorSource::UnsupportedRequirement(_) => "unsupported" };
+                    format!("err {} {} {} disp={} boundary={}{}", kind, e.start, e.len, disp as u8, boundary as u8, ul_field(rendered))
+                }
+            }
+        }
         "x" => match pep508_rs::Extras::parse::<VerbatimUrl>(&text) {
             Ok(x) => format!("ok {}", hex(&format!("{:?}", x))),
             Err(e) => {
@@ -166,6 +186,58 @@ pub fn post_process(model: &str, vars: &[(String, String)]) -> String {
     }
 }
 
+/// stage 2 of an `unnamed` case: resolve the recorded URL-building call with the real crate
+#[cfg(feature = "ext")]
+pub fn post_process_unnamed(model: &str, vars: &[(String, String)]) -> String {
+    use pep508_rs::UnnamedRequirementUrl;
+    apply_env(vars);
+    let Some((call, then)) = model.split_once('\t') else { return format!("unreadable {model}") };
+    let call = call.strip_prefix("call=").unwrap_or("");
+    let then = then.strip_prefix("then=").unwrap_or("");
+    if call == "-" || !then.starts_with("ok ") && !then.starts_with("err ") { return if then.starts_with("panic") { "panic".into() } else { then.to_string() }; }
+    let p: Vec<&str> = call.split(':').collect();
+    let text = unhex(p[1]);
+    let built: Result<VerbatimUrl, _> = match p[0] {
+        "file" => {
+            let path = pep508_rs::strip_host(&text);
+            let path = urlencoding::decode(path).map(|c| c.into_owned()).unwrap_or(path.to_string());
+            <VerbatimUrl as UnnamedRequirementUrl>::parse_path(&path, "/work")
+        }
+        "url" => <VerbatimUrl as UnnamedRequirementUrl>::parse_unnamed_url(&text),
+        _ => <VerbatimUrl as UnnamedRequirementUrl>::parse_path(&text, "/work"),
+    };
+    match built {
+        Err(_) => format!("err url {} {}", p[2], p[3]),
+        Ok(u) => match then.strip_prefix("ok ") {
+            Some(rest) => {
+                // given=… extras=… marker=… w=…  →  insert url=… after given
+                let (given, tail) = rest.split_once(' ').unwrap_or((rest, ""));
+                format!("ok {} url={} {}", given, hex(&u.to_string()), tail)
+            }
+            None => then.to_string(),
+        },
+    }
+}
+
+/// an unnamed requirement: implementation (worker) vs model (`unnamed` driver op, two-stage)
+#[cfg(feature = "ext")]
+pub fn unnamed_case(out: &mut Out, w: &mut Worker, rc: &mut ReqCases, text: &str, vars: &[(String, String)]) -> String {
+    out.evaluations += 1;
+    let ans = w.call(&format!("u {} {}", hex(text), env_field(vars)));
+    let (alpha, table) = ext_table(text);
+    rc.lines.push(format!("unnamed\t{}\t{}\t{}\t{}\t{}", hex(text), alpha, if table.is_empty() { "-".to_string() } else { table }, env_field(vars), hex("/work")));
+    rc.envs.push(vars.to_vec());
+    out.impl_out.push(corr_part(&ans));
+    let input = serde_json::json!({"text": text, "feature": "non-pep508-extensions", "entry": "UnnamedRequirement::parse"});
+    if ans.starts_with("panic") || ans == "dead" { out.oracle_fail("C06", "UnnamedRequirement::parse panicked", input.clone()); out.stat("unnamed.panic"); }
+    else if ans.starts_with("err ") {
+        out.stat("unnamed.err");
+        if ans.contains("disp=0") { out.oracle_fail("C06", "UnnamedRequirement error cannot be formatted", input.clone()); }
+        if ans.contains("boundary=0") { out.oracle_fail("C06", "UnnamedRequirement error span does not start on a char boundary", input.clone()); }
+    } else { out.stat("unnamed.ok"); }
+    ans
+}
+
 fn corr_part(ans: &str) -> String {
     if ans.starts_with("err ") {
         ans.split(' ').take(4).collect::<Vec<_>>().join(" ")
@@ -234,7 +306,12 @@ pub fn finish(out: &mut Out, rc: ReqCases) {
     let mut model = Vec::new();
     for (i, l) in rc.lines.iter().enumerate() {
         let a = answers.get(i).copied().unwrap_or("missing");
-        if l.starts_with("req\t") {
+        if l.starts_with("unnamed\t") {
+            #[cfg(feature = "ext")]
+            model.push(post_process_unnamed(a, &rc.envs[i]));
+            #[cfg(not(feature = "ext"))]
+            model.push(a.to_string());
+        } else if l.starts_with("req\t") {
             model.push(post_process(a, &rc.envs[i]));
         } else if l.starts_with("urlhelpers2\t") {
             model.push(a.rsplit_once(" archive=").map(|x| x.0.to_string()).unwrap_or(a.to_string()));
@@ -565,6 +642,8 @@ pub fn run(out: &mut Out, tier: &str, seed: u64, prop: &str) {
                     } else { out.stat("c19.unsupported"); }
                 }
                 #[cfg(feature = "ext")]
+                { unnamed_case(out, &mut w, &mut rc, &text, &vars); }
+                #[cfg(feature = "ext")]
                 if *handpicked { unnamed_oracle(out, &text, sh, suf); }
                 let _ = handpicked;
                 // url helpers: implementation vs Lean model
@@ -575,6 +654,22 @@ pub fn run(out: &mut Out, tier: &str, seed: u64, prop: &str) {
                 rc.envs.push(vars.clone());
                 out.impl_out.push(format!("scheme={sch} extras={ext}"));
             }
+        }
+    }
+    // ---- the unnamed parser (extension feature) on targeted and hostile texts: implementation vs model -------
+    #[cfg(feature = "ext")]
+    if prop == "C19" || prop == "C06" {
+        let targeted = ["a[b ;c]", "a[b] [c]", "a[[b]]", "a[b]c]", "a[b][c]", "x ; [", "p[a,b,]", "p[,a]", "p[a \u{e9}]", "p[]", "p[ ]", "p[a-]", "p[ a , b ]",
+            "${VP_HOME_DIR}/x[dev]", "p[${VP_EMPTY}]", "${VP_EMPTY}", "file://localhost/p", "file://localhost", "file:p", "FILE:///p", "file:///a%20b#c%2541", "git+https://h/p[x]#egg", "h://x", "hg+static-http://h/p",
+            "p;q", "p; q", "p ;q", "p #c", "p# c", "p\n; m", "p\r x", "p\r\n", "", " ", "[x]", "a]", "a[", "p ; os_name == 'a' x", "p;", "p; ", "p#", "p[x]; ", "p[x]# y", "./a b", "./a b ; os_name == 'a'",
+            "p [x]", "p\t[x] ; os_name=='a'", "/\u{65e5}[\u{672c}]", "p[x]\u{3000};os_name=='a'", "p;\u{3000}#x", "C:\\a\\b.whl[x]", "a:b", "1a:b", "../x[y] # c"];
+        for t in targeted { unnamed_case(out, &mut w, &mut rc, t, &vars); out.nontrivial(format!("unnamed {t}")); }
+        let bases = ["https://x.org/a-1.0.whl[dev]", "../rel/p.tar.gz ; os_name == 'a'", "/abs/path[dev,test] ; python_version > '3'", "file:///tmp/x[a]", "git+https://github.com/a/b.git@main#egg=b", "${VP_HOME_DIR}/x [x]", "./p # c"];
+        let n = if big { 6000 } else { 1200 };
+        for i in 0..n {
+            let base = rng.pick(&bases).to_string();
+            let text = if i % 9 == 0 { base } else { hostile(&mut rng, &base) };
+            unnamed_case(out, &mut w, &mut rc, &text, &vars);
         }
     }
     out.stat_n("worker.restarts", w.restarts);
